@@ -15,7 +15,7 @@ ASSUMPTIONS = ["default TransportTuning; one-way latency 1 ms", "with random los
 REQUIRED_MONITORS = {"request_body": 200, "response_body": 200, "block1_options": 150, "block2_options": 150, "misbehaving_server": 60, "negotiation": 60}
 
 LENGTHS = [0, 1, 15, 16, 17, 31, 32, 33, 63, 64, 65, 127, 128, 129, 255, 256, 257, 511, 512, 513, 1023, 1024, 1025, 1124, 1125, 2047, 2048, 2049, 5000, 20000]
-MISBEHAVIOURS = ["b1-wrong-num", "b1-more-on-final", "b1-continue-on-final", "b2-wrong-num", "b2-short-with-more", "etag-changes"]
+MISBEHAVIOURS = ["b1-wrong-num", "b1-wrong-num-final", "b1-more-on-final", "b1-continue-on-final", "b2-wrong-num", "b2-short-with-more", "etag-changes"]
 
 
 def plan(tier, seed):
@@ -196,6 +196,8 @@ def misbehaviour_manifested(p, srv, req_body, rep_body):
     mis, at = p["mis"], p["mis_at"]
     if mis == "b1-wrong-num":
         return srv.b1_count > at
+    if mis == "b1-wrong-num-final":
+        return any(b[0] > 0 and not b[1] for tr in [s_ for s_ in srv.seen if s_["b1"] is not None] for b in [tr["b1"]]) and len(srv.completed_bodies) > 0
     if mis in ("b1-more-on-final", "b1-continue-on-final"):
         return any(b[0] == ("res",) or True for b in srv.completed_bodies) and any(s["b1"] is not None for s in srv.seen) and len(srv.completed_bodies) > 0
     if mis in ("b2-wrong-num", "b2-short-with-more"):
